@@ -292,4 +292,13 @@ theorem c12_crd_result_describes_owner (enis : List CrdEni) (pod id : String) (h
     obtain ⟨hu, a, ha, hv, hpod⟩ := hp
     exact ⟨e, hm, h, hu, a, ha, hv, hpod⟩
 
+/-- a local result from an interface listed at start-up carries a gateway and a subnet for every enabled family: the IPv4
+    ones always, the IPv6 ones exactly on an IPv6 node -/
+theorem c12_startup_result_has_gateway (v6 : Bool) (k : Nat) :
+    (metaNetConf v6 k).gw6.isSome = v6 ∧ (metaNetConf v6 k).cidr6.isSome = v6 := by
+  cases v6 <;> simp [metaNetConf]
+
+example : metaNetConf true 0 = { gw4 := "10.0.0.253", gw6 := some "fd00::fffd", cidr4 := "10.0.0.0/24", cidr6 := some "fd00::/64" } := by decide
+example : (metaNetConf true 171).gw6 = some "fd00:ab::fffd" ∧ (metaNetConf false 171).gw6 = none := by decide
+
 end Terway.Props.C12
